@@ -128,6 +128,44 @@ COMBINATORS = (
 )
 
 
+def _expand_then(fns, f, i, transparent, path):
+    """`dest = o.then_with(closure)` / `o.then(x)` (closure new relative to the baseline) rewritten into what it does:
+    `dest = if o is Equal { closure() / x } else { o }` -- a lexicographic comparison written as a chain reads like the
+    nested `match` it replaces"""
+    blk = f["blocks"][i]
+    t = blk["t"]
+    lazy = "then_with" in path
+    if lazy:
+        cid = _closure_of_operand(f, t["args"][1])
+        if cid is None or not (cid in transparent or fns[cid].get("parent") in transparent or f["id"] in transparent_hosts):
+            return False
+    elif not (f["id"] in transparent or f["id"] in transparent_hosts or f.get("then_expand")):
+        return False
+    src = t["args"][0].get("mv") or t["args"][0].get("cp")
+    if src is None or src.get("p"):
+        return False
+    ln = t.get("ln")
+    L = len(f["locals"])
+    for nm in ("discr", "args"):
+        f["locals"].append({"ty": "?", "syn": "then:" + nm})
+    d, tup = L, L + 1
+    n = len(f["blocks"])
+    bE, bK = n, n + 1
+    cont, unw, dest = t["t"], t.get("unwind"), t["dest"]
+    blk["s"].append({"k": "assign", "lhs": {"l": d}, "rv": {"k": "discr", "pl": {"l": src["l"]}, "of": "std::cmp::Ordering"}, "ln": ln})
+    blk["t"] = {"k": "switch", "op": {"mv": {"l": d}}, "vals": [0], "targets": [bE], "otherwise": bK, "op_ty": "i8", "ln": ln, "expanded": path}
+    if lazy:
+        call = {"k": "call", "func": {"c": {"fn": "std::ops::FnOnce::call_once"}}, "args": [copy.deepcopy(t["args"][1]), {"mv": {"l": tup}}], "dest": copy.deepcopy(dest), "t": cont,
+                "callee": {"def": "std::ops::FnOnce::call_once", "path": "<closure as std::ops::FnOnce<()>>::call_once", "krate": "core"}, "ln": ln}
+        if unw is not None:
+            call["unwind"] = unw
+        f["blocks"].append({"s": [{"k": "assign", "lhs": {"l": tup}, "rv": {"k": "agg", "ak": "tuple", "fields": []}, "ln": ln}], "t": call})
+    else:
+        f["blocks"].append({"s": [{"k": "assign", "lhs": copy.deepcopy(dest), "rv": {"k": "use", "op": copy.deepcopy(t["args"][1])}, "ln": ln}], "t": {"k": "goto", "t": cont, "ln": ln}})
+    f["blocks"].append({"s": [{"k": "assign", "lhs": copy.deepcopy(dest), "rv": {"k": "use", "op": {"cp": {"l": src["l"]}}}, "ln": ln}], "t": {"k": "goto", "t": cont, "ln": ln}})
+    return True
+
+
 def _expand_combinator(fns, f, i, transparent):
     """rewrite `dest = opt.map(closure)` (closure built in this body and new relative to the baseline) into what it does:
     a branch on the variant, a direct call of the closure on the payload, the result wrapped again -- the direct call is
@@ -137,6 +175,8 @@ def _expand_combinator(fns, f, i, transparent):
     t = blk["t"]
     c = t.get("callee") or {}
     path = str(c.get("path") or c.get("def") or "")
+    if _re.search(r"^std::cmp::Ordering::then(_with::<.*)?$", path) and len(t.get("args", [])) == 2 and t.get("t") is not None and not t["dest"].get("p"):
+        return _expand_then(fns, f, i, transparent, path)
     spec = next((x for x in COMBINATORS if _re.search(x[0], path)), None)
     if spec is None or len(t.get("args", [])) != 2 or t.get("t") is None or t["dest"].get("p"):
         return False
